@@ -1220,6 +1220,16 @@ fn parent(args: &Args) {
         if !res.sim.is_empty() {
             stats.bump("witness_replay", &res.sim);
         }
+        // the logical trace recorded by the cfg(patronus_verif) hook of pdr.rs (replayed by the driver
+        // against the extracted concrete model)
+        if res.fields.contains("(trace on") {
+            stats.inc("runs_with_trace");
+            stats.bump("trace_queries", &bucket(res.fields.matches(" (q ").count() as u64));
+            stats.bump("trace_blocked_cubes", &bucket(res.fields.matches(" (block ").count() as u64));
+            stats.bump("trace_frames", &format!("{}", res.fields.matches(" (addframe ").count().min(20)));
+        } else {
+            stats.inc("runs_without_trace_hook");
+        }
         script_hashes.entry(format!("{}|{}", job.sys_text, job.cfg.gen_on)).or_default().insert(res.hash.clone());
         stats.sample(&line, 3);
         writeln!(out, "{line}").unwrap();
@@ -1424,7 +1434,50 @@ fn worker(args: &Args) {
     let bases: HashSet<String> = sys.states.iter().map(|s| s.symbol).chain(sys.inputs.iter().copied()).filter_map(|e| ctx.get_symbol_name(e).map(|n| n.to_string())).collect();
     let script = script_stats(&script_path, &bases);
     let _ = std::fs::remove_file(&script_path);
-    println!("(impl {impl_s}) (sim {sim_s}) (script {script})");
+    let trace = dump_trace(&ctx);
+    println!("(impl {impl_s}) (sim {sim_s}) (script {script}) (trace {trace})");
+}
+
+/// the logical trace of the run recorded by the cfg(patronus_verif) hook in pdr.rs (if the patronus
+/// checkout has it): queries with their answers, blocked cubes, added frames; literals as
+/// (l "state" bit polarity)
+#[cfg(c10_pdr_trace)]
+fn dump_trace(ctx: &Context) -> String {
+    use patronus::mc::pdr_verif_trace::{Answer, Ev, INF, take};
+    let lit = |e: ExprRef| -> String {
+        let (inner, pol) = match &ctx[e] {
+            Expr::BVNot(x, _) => (*x, 0),
+            _ => (e, 1),
+        };
+        match &ctx[inner] {
+            Expr::BVSlice { e: sym, hi, lo } if hi == lo => format!("(l {} {} {})", quote(ctx.get_symbol_name(*sym).unwrap_or("?")), lo, pol),
+            Expr::BVSymbol { .. } => format!("(l {} 0 {})", quote(ctx.get_symbol_name(inner).unwrap_or("?")), pol),
+            _ => format!("(l \"?{}\" 0 {})", usize::from(inner), pol),
+        }
+    };
+    let lits = |v: &Vec<ExprRef>| -> String { v.iter().map(|e| lit(*e)).collect::<Vec<_>>().join(" ") };
+    let frame = |f: usize| -> String { if f == INF { "inf".to_string() } else { format!("{f}") } };
+    let mut out = String::from("on");
+    for ev in take() {
+        match ev {
+            Ev::Query { kind, frame: f, neg, fixed, sel, answer } => {
+                let a = match answer {
+                    Answer::Sat(m) => format!("(sat {})", lits(&m)),
+                    Answer::Unsat(c) => format!("(unsat {})", lits(&c)),
+                    Answer::Unknown => "(unknown)".to_string(),
+                };
+                out.push_str(&format!(" (q {kind} {} {} (fixed {}) (sel {}) {a})", frame(f), if neg { 1 } else { 0 }, lits(&fixed), lits(&sel)));
+            }
+            Ev::Block { frame: f, cube } => out.push_str(&format!(" (block {} {})", frame(f), lits(&cube))),
+            Ev::AddFrame { act_id } => out.push_str(&format!(" (addframe {act_id})")),
+        }
+    }
+    out
+}
+
+#[cfg(not(c10_pdr_trace))]
+fn dump_trace(_ctx: &Context) -> String {
+    "off".to_string()
 }
 
 fn truncate(s: &str, n: usize) -> String {
